@@ -7,6 +7,6 @@ CONSTANTS
   GenVars = {"x"}
   SimpleKinds = {"assign", "use", "call", "return"}
   Shape = "any"
-INVARIANT InvC09
+INVARIANT InvAll
 INVARIANT EmitDone
 CHECK_DEADLOCK FALSE
